@@ -24,3 +24,24 @@ tail -n 1 "$OUT/check_quick.log"
 cat > "$OUT/confirm.json" <<EOT
 {"property": "$PID", "demo_with_change_rc": $D1, "demo_on_unmodified_repo_rc": $D0, "related_tests": "$*", "related_tests_rc": "$T", "check_cmd": "VERIF_REPO=<tree with patch> ./check $PID --tier quick", "check_rc": $C}
 EOT
+# meta.json: property, what the change needs to manifest, what was run (merged from agent_meta.json + confirm.json)
+python3 - "$OUT" "$PID" "$NAME" <<'EOP'
+import json, sys
+out, pid, name = sys.argv[1:]
+def load(f):
+    try: return json.load(open(f"{out}/{f}"))
+    except Exception: return {}
+am, cf = load("agent_meta.json"), load("confirm.json")
+try: viol = [l for l in open(f"{out}/check_quick.log") if l.startswith("VIOLATION")]
+except Exception: viol = []
+json.dump({"name": name, "property": pid, "summary": am.get("summary"), "needs_to_manifest": am.get("needs"),
+           "files_changed": am.get("files"), "author_tests_run": am.get("tests_run"),
+           "confirmed": {"demo_with_change_rc": cf.get("demo_with_change_rc"),
+                         "demo_on_unmodified_repo_rc": cf.get("demo_on_unmodified_repo_rc"),
+                         "related_existing_tests": cf.get("related_tests"),
+                         "related_existing_tests_rc_with_change": cf.get("related_tests_rc")},
+           "check": {"cmd": cf.get("check_cmd"), "rc_at_confirmation": cf.get("check_rc"),
+                     "violation_lines_at_confirmation": len(viol),
+                     "first_violation": viol[0][:400].strip() if viol else None}},
+          open(f"{out}/meta.json", "w"), indent=1)
+EOP
